@@ -298,6 +298,11 @@ func (r *Run) seedGlobal(g *ssa.Global, o *Object) {
 		r.storeT(Ptr{Obj: o}, t, Iface{T: r.eng.canon(types.NewPointer(et)), V: Ptr{Obj: eo}})
 		return
 	}
+	if name == "io.Discard" {
+		dt := r.namedType("io", "discard")
+		r.storeT(Ptr{Obj: o}, t, Iface{T: r.eng.canon(dt), V: r.zeroValue(dt)})
+		return
+	}
 	if name == "time.UTC" {
 		r.storeT(Ptr{Obj: o}, t, Ptr{Obj: r.utcLoc()})
 		return
